@@ -61,19 +61,71 @@ pub struct PartialValue { pub o: u64 }
 impl vstd::std_specs::convert::FromSpecImpl<EntryClass> for PartialValue { open spec fn obeys_from_spec() -> bool { false } uninterp spec fn from_spec(v: EntryClass) -> PartialValue; }
 impl From<EntryClass> for PartialValue { #[verifier::external_body] fn from(v: EntryClass) -> (r: PartialValue) { unimplemented!() } }
 impl EntrySealedCommitted { #[verifier::external_body] pub fn get_ava_set(&self, a: Attribute) -> (r: Option<&ValueSet>) { unimplemented!() } }
+// change state observers (proved on the real text in contracts/C09/merge_state); here uninterpreted
+pub struct EntryChangeState { pub o: u8 }
+impl EntryChangeState { pub uninterp spec fn deletable(&self, c: Cid) -> bool; #[verifier::external_body] pub fn can_delete(&self, cid: &Cid) -> (r: bool) ensures r == self.deletable(*cid) { unimplemented!() }
+                        pub uninterp spec fn live(&self) -> bool; #[verifier::external_body] pub fn is_live(&self) -> (r: bool) ensures r == self.live() { unimplemented!() } }
+impl EntrySealedCommitted { #[verifier::external_body] pub fn get_changestate(&self) -> (r: &EntryChangeState) { unimplemented!() } }
 impl ValueSet { #[verifier::external_body] pub fn contains(&self, pv: &PartialValue) -> (r: bool) { unimplemented!() } }
 pub struct Arc<T> { pub v: T }
-impl<T> Arc<T> { pub fn as_ref(&self) -> (r: &T) { &self.v } }
+impl<T> Arc<T> { pub fn as_ref(&self) -> (r: &T) ensures *r == self.v { &self.v } }
 impl<T> core::ops::Deref for Arc<T> { type Target = T; fn deref(&self) -> (r: &T) ensures *r == self.v { &self.v } }
 pub struct SchemaTransaction { pub o: u8 }
-impl ReplIncrementalEntryV1 { #[verifier::external_body] pub fn new(e: &EntrySealedCommitted, schema: &SchemaTransaction, ranges: &BTreeMap<Uuid, ReplCidRange>) -> (r: ReplIncrementalEntryV1) { unimplemented!() } }
-#[verifier::external_body] #[verifier::reject_recursive_types(T)] pub struct KvxVec<T> { p: core::marker::PhantomData<T> }
+// what is sent for one entry given the supplied windows (ReplIncrementalEntryV1::new: range-filtered attribute states; not specified here)
+pub uninterp spec fn incr_of(e: EntrySealedCommitted, ranges: Map<Uuid, ReplCidRange>) -> ReplIncrementalEntryV1;
+impl ReplIncrementalEntryV1 { #[verifier::external_body] pub fn new(e: &EntrySealedCommitted, schema: &SchemaTransaction, ranges: &BTreeMap<Uuid, ReplCidRange>) -> (r: ReplIncrementalEntryV1) ensures r == incr_of(*e, ranges@) { unimplemented!() } }
+// Vec / IntoIter pipelines that assemble the payload (std documentation): partition splits the items between its two results, map
+// applies the closure to every item (stated through the closure's own CHECKED contract), filter keeps a sub-multiset, collect keeps all
+// In this unit `Vec` IS the stand-in (it shadows std's Vec, so every `into_iter()` pipeline — also ones a later change adds — goes through
+// the specified adaptors below); its view is the sequence of its elements
+#[verifier::external_body] #[verifier::reject_recursive_types(T)] pub struct Vec<T> { p: core::marker::PhantomData<T> }
+impl<T> View for Vec<T> { type V = Seq<T>; uninterp spec fn view(&self) -> Seq<T>; }
 #[verifier::external_body] #[verifier::reject_recursive_types(T)] pub struct KvxIntoIter<T> { p: core::marker::PhantomData<T> }
-impl<T> KvxVec<T> { #[verifier::external_body] pub fn into_iter(self) -> (r: KvxIntoIter<T>) { unimplemented!() } }
+impl<T> Vec<T> {
+    pub open spec fn seq(&self) -> Seq<T> { self@ }
+    #[verifier::external_body] pub fn into_iter(self) -> (r: KvxIntoIter<T>) ensures r.seq() == self@ { unimplemented!() }
+}
 impl<T> KvxIntoIter<T> {
-    #[verifier::external_body] pub fn partition<F: Fn(&T) -> bool>(self, f: F) -> (r: (KvxVec<T>, KvxVec<T>)) { unimplemented!() }
-    #[verifier::external_body] pub fn map<U, F: Fn(T) -> U>(self, f: F) -> (r: KvxIntoIter<U>) { unimplemented!() }
-    #[verifier::external_body] pub fn collect(self) -> (r: Vec<T>) { unimplemented!() }
+    pub uninterp spec fn seq(&self) -> Seq<T>;
+    #[verifier::external_body] pub fn partition<F: Fn(&T) -> bool>(self, f: F) -> (r: (Vec<T>, Vec<T>))
+        ensures r.0.seq().to_multiset().add(r.1.seq().to_multiset()) == self.seq().to_multiset() { unimplemented!() }
+    #[verifier::external_body] pub fn map<U, F: Fn(T) -> U>(self, f: F) -> (r: KvxIntoIter<U>)
+        requires forall|t: T| #[trigger] f.requires((t,)),
+        ensures r.seq().len() == self.seq().len(), forall|i: int| 0 <= i < self.seq().len() ==> f.ensures((self.seq()[i],), #[trigger] r.seq()[i]) { unimplemented!() }
+    #[verifier::external_body] pub fn filter<F: Fn(&T) -> bool>(self, f: F) -> (r: KvxIntoIter<T>)
+        ensures r.seq().to_multiset().subset_of(self.seq().to_multiset()),
+                forall|i: int| 0 <= i < r.seq().len() ==> f.ensures((&#[trigger] r.seq()[i],), true),
+                forall|i: int| 0 <= i < self.seq().len() && f.ensures((&#[trigger] self.seq()[i],), true) && !f.ensures((&self.seq()[i],), false) ==> r.seq().contains(self.seq()[i]) { unimplemented!() }
+    #[verifier::external_body] pub fn collect(self) -> (r: Vec<T>) ensures r@ == self.seq() { unimplemented!() }
+}
+// every entry the backend retrieved for the supplied windows is sent, in one of the three lists
+pub open spec fn supplied_all(retrieved: Seq<Arc<EntrySealedCommitted>>, rg: Map<Uuid, ReplCidRange>, a: Seq<ReplIncrementalEntryV1>, b: Seq<ReplIncrementalEntryV1>, c: Seq<ReplIncrementalEntryV1>) -> bool {
+    a.len() + b.len() + c.len() == retrieved.len()
+    && forall|i: int| 0 <= i < retrieved.len() ==> (a.contains(incr_of((#[trigger] retrieved[i]).v, rg)) || b.contains(incr_of(retrieved[i].v, rg)) || c.contains(incr_of(retrieved[i].v, rg)))
+}
+pub open spec fn reply_supplies_all(be: BackendReadTransaction, reply: ReplIncrementalContext) -> bool {
+    match reply {
+        ReplIncrementalContext::V1 { domain_version, domain_patch_level, domain_uuid, ranges, schema_entries, meta_entries, entries } =>
+            exists|rg: Map<Uuid, ReplCidRange>| #[trigger] supplied_all(be.range_entries(rg), rg, schema_entries@, meta_entries@, entries@),
+        _ => true,
+    }
+}
+pub proof fn lemma_mapped_member<T, U>(xs: Seq<T>, ys: Seq<U>, x: T, g: spec_fn(T) -> U)
+    requires xs.len() == ys.len(), forall|i: int| 0 <= i < xs.len() ==> #[trigger] ys[i] == g(xs[i]), xs.contains(x)
+    ensures ys.contains(g(x))
+{ let i = choose|i: int| 0 <= i < xs.len() && xs[i] == x; assert(ys[i] == g(x)); }
+pub proof fn lemma_three_way<T>(all: Seq<T>, s: Seq<T>, rem: Seq<T>, m: Seq<T>, e: Seq<T>)
+    requires s.to_multiset().add(rem.to_multiset()) == all.to_multiset(), m.to_multiset().add(e.to_multiset()) == rem.to_multiset()
+    ensures s.len() + m.len() + e.len() == all.len(), forall|x: T| all.contains(x) ==> (s.contains(x) || m.contains(x) || e.contains(x))
+{
+    broadcast use vstd::seq_lib::group_to_multiset_ensures;
+    assert(all.to_multiset().len() == all.len()); assert(s.to_multiset().len() == s.len()); assert(rem.to_multiset().len() == rem.len());
+    assert(m.to_multiset().len() == m.len()); assert(e.to_multiset().len() == e.len());
+    assert forall|x: T| all.contains(x) implies (s.contains(x) || m.contains(x) || e.contains(x)) by {
+        assert(all.to_multiset().count(x) > 0);
+        assert(s.to_multiset().count(x) + rem.to_multiset().count(x) == all.to_multiset().count(x));
+        assert(m.to_multiset().count(x) + e.to_multiset().count(x) == rem.to_multiset().count(x));
+    }
 }
 // ---- statement of C10 at the level of the supplier's reply ----
 pub open spec fn reply_ok(c: Map<Uuid, ReplCidRange>, s: Map<Uuid, ReplCidRange>, reply: ReplIncrementalContext) -> bool {
@@ -86,8 +138,9 @@ pub open spec fn reply_ok(c: Map<Uuid, ReplCidRange>, s: Map<Uuid, ReplCidRange>
 #[verifier::external_body] pub struct BackendReadTransaction { p: u8 }
 impl BackendReadTransaction {
     pub uninterp spec fn ruv(&self) -> ReplicationUpdateVector;
-    #[verifier::external_body] pub fn get_ruv(&mut self) -> (r: ReplicationUpdateVector) ensures r == old(self).ruv(), final(self).ruv() == old(self).ruv() { unimplemented!() }
-    #[verifier::external_body] pub fn retrieve_range(&mut self, ranges: &BTreeMap<Uuid, ReplCidRange>) -> (r: Result<KvxVec<Arc<EntrySealedCommitted>>, OperationError>) ensures final(self).ruv() == old(self).ruv() { unimplemented!() }
+    #[verifier::external_body] pub fn get_ruv(&mut self) -> (r: ReplicationUpdateVector) ensures r == old(self).ruv(), final(self).ruv() == old(self).ruv(), forall|rg: Map<Uuid, ReplCidRange>| final(self).range_entries(rg) == old(self).range_entries(rg) { unimplemented!() }
+    pub uninterp spec fn range_entries(&self, ranges: Map<Uuid, ReplCidRange>) -> Seq<Arc<EntrySealedCommitted>>;       // the entries changed inside the windows (be::retrieve_range)
+    #[verifier::external_body] pub fn retrieve_range(&mut self, ranges: &BTreeMap<Uuid, ReplCidRange>) -> (r: Result<Vec<Arc<EntrySealedCommitted>>, OperationError>) ensures final(self).ruv() == old(self).ruv(), r matches Ok(v) ==> v.seq() == old(self).range_entries(ranges@), forall|rg: Map<Uuid, ReplCidRange>| final(self).range_entries(rg) == old(self).range_entries(rg) { unimplemented!() }
 }
 pub struct DomainInfo { pub d_uuid: Uuid, pub d_vers: DomainVersion, pub d_devel_taint: bool, pub d_patch_level: u32 }
 pub struct QueryServerReadTransaction { pub d_info: DomainInfo, pub be: BackendReadTransaction, pub trim: Cid, pub schema: SchemaTransaction }
